@@ -296,7 +296,7 @@ fn check_built(c: &BuiltCase, ctx: &Ctx) -> Outcome {
     })();
     ctx.done(&dir);
     match r {
-        Err(Outcome::Fail(m)) => Outcome::Fail(format!("k={k} rc={rc} min_freq={} samples={}: {m}", c.freq.value(n), super::c07::show_samples(&samples))),
+        Err(Outcome::Fail(m)) => Outcome::Fail(format!("k={k} rc={rc} min_freq={} samples={}: {m}", c.freq.value(n), super::common::show_samples(&samples))),
         Err(o) => o,
         Ok(()) => {
             let both = exp.iter().any(|l| {
